@@ -50,7 +50,7 @@ RULE = (
 )
 ASSUMPTIONS = [
     "the numeric catalogue (fixed spectra/shapes, orthogonal factors, weight fields and shift patterns drawn from VERIF_SEED) stands for 'all inputs'",
-    "transformed copies are formed in float64; the comparison tolerance is 1e-10 + 10 x (relative rounding error of forming the node's "
+    "transformed copies are formed in float64; the comparison tolerance is 1e-10 + 20 x (relative rounding error of forming the node's "
     "data, measured after preprocessing) x (s1/gap of the compared singular subspace), i.e. digits necessarily lost are not counted",
     "vectors are compared per cluster of singular values (relative gap 1e-3): single modes entry-wise with the sign fixed unless the two "
     "largest loadings tie within 1e-6, clusters through their projector and their rank-|cluster| reconstruction",
@@ -65,7 +65,7 @@ TRUSTED = ["statsmodels import shim (/verif/shims) so that xeofs.cross construct
 MAX_REFUSED_FRACTION = 0.02
 
 EPS = float(np.finfo(float).eps)
-K_TOL = 10.0
+K_TOL = 20.0
 TOL_FLOOR = 1e-10
 TOL_CAP = 1e-4  # a comparison looser than this is not counted as evaluated
 
@@ -258,7 +258,8 @@ def cases(tier, seed):
     x_none = dict(w=[False, False], cos=[False, False])
     x_mixed = [dict(w=[True, False], cos=[False, True]), dict(w=[False, True], cos=[True, False])]
     if not thorough:
-        cross("MCA", [1.0, 1.0], (9, 4, 3), [False, True], ["DA"], [x_none, x_all], [x_all])
+        cross("MCA", [1.0, 1.0], (9, 4, 3), [False], ["DA"], [x_none, x_all], [x_all])
+        cross("MCA", [1.0, 1.0], (9, 4, 3), [True], ["DA"], [x_all], [], P1=RED)
         cross("MCA", [1.0, 1.0], (12, 6, 4), [False], ["DS", "LIST"], [x_all] + x_mixed, [], P1=RED_X)
         cross("CPCCA", [0.5, 0.5], (9, 4, 3), [False], ["DA"], [x_all], [x_all], P1=RED)
         cross("CPCCA", [0.5, 0.5], (9, 4, 3), [True], ["DA"], [x_all], [], P1=RED)
